@@ -6,7 +6,7 @@ from ..impl import nap, farr, iset, iset_ns, is_canonical_ns
 
 RULE = ("constructor level: Ts/Tsd/TsdFrame/TsdTensor from unsorted/duplicated/empty timestamps with a canonical support "
         "(epochs holding no sample, samples outside) or none, compared with the Lean model Series.new (t, rows, support, rate as "
-        "exact fraction); history level: random operation sequences (restrict with literal/union/intersect/set_diff supports, "
+        "exact fraction); history level: random operation sequences (restrict with literal/union/intersect/set_diff supports and with the own support trimmed by 1 us, "
         "slice/list/mask indexing incl. reordering, get, element-wise numpy, count, bin_average, value_from, interpolate, "
         "threshold, dropna, convolve, smooth, concatenate, split, randomisation, to_tsgroup/to_tsd, perievent, merge), each "
         "output fed to later operations, observed after EVERY step: model state (Series.step) == implementation state, and a "
@@ -166,7 +166,7 @@ class Hist:
     def step(self):
         x, rng, sc = self.x, self.rng, self.sc
         n = len(x)
-        c = rng.randrange(22)
+        c = rng.randrange(23)
         if c == 0:
             st, en = self.lit(); self.push("restrict", "R/L/" + self.supe(st, en), x.restrict(iset(st, en, sc)), True)
         elif c == 1:
@@ -174,6 +174,23 @@ class Hist:
             ep = iset(st, en, sc)
             e2 = {"U": x.time_support.union, "I": x.time_support.intersect, "D": x.time_support.set_diff}[k](ep)
             self.push("restrict(support %s ep)" % k, "R/%s/%s" % (k, self.supe(st, en)), x.restrict(e2), True)
+        elif c == 22:
+            # an epoch that is ALMOST the current support: one edge moved inwards by 1 us (far below any relative tolerance
+            # a comparison of supports might use); the result must live on exactly that epoch
+            st, en = iset_ns(x.time_support)
+            if not st:
+                return
+            j = rng.randrange(len(st))
+            if en[j] - st[j] <= 2000:
+                return
+            if rng.random() < 0.5:
+                en = en[:j] + [en[j] - 1000] + en[j + 1:]
+            else:
+                st = st[:j] + [st[j] + 1000] + st[j + 1:]
+            ep = nap.IntervalSet(start=np.array(st) / 1e9, end=np.array(en) / 1e9)
+            if iset_ns(ep) != (st, en):
+                return
+            self.push("restrict(support trimmed by 1us)", "R/L/%s/%s" % (enc(st), enc(en)), x.restrict(ep), True)
         elif c == 2:
             a = rng.randint(-2, n + 1); b = rng.randint(-2, n + 1); s = rng.choice([1, 1, 2, 3, -1])
             sl = slice(a, b, s)
@@ -290,6 +307,15 @@ class Hist:
             except Exception:
                 self.ctx.count("group_constructor_raised"); return
             gs = [g, g[[7]], g.restrict(iset(*self.lit(), sc))]
+            # a group support that is ALMOST the member's own support (one edge 1 us inside): members must carry exactly it
+            mst, men = iset_ns(me.time_support)
+            if mst and men[-1] - mst[-1] > 2000:
+                near = nap.IntervalSet(start=np.array(mst) / 1e9, end=np.array(men[:-1] + [men[-1] - 1000]) / 1e9)
+                try:
+                    gs.append(nap.TsGroup({7: me, 2: other}, time_support=near))
+                    gs.append(g.restrict(near))
+                except Exception:
+                    self.ctx.count("group_near_support_raised")
             # merging groups that live on different supports (restricted to different epochs) with a fresh union support
             try:
                 ga, gb = g.restrict(iset(*self.lit(), sc)), g.restrict(iset(*self.lit(), sc))
